@@ -87,9 +87,17 @@ def run(prog: Program, rep, thorough: bool) -> None:
     try:
         _shape_rules(prog, rep, td, ds)
     except AnalysisError as exc:
-        if not wit:
+        read = rep.extra.get('witness_search', {}).get('inputs_read', 0)
+        if wit:
+            rep.note(f'shape rules not applicable to this danger_space ({exc}); the statement is refuted by the counterexample')
+        elif read and rep.extra.get('witness_search', {}).get('unreadable') is None:
+            # another shape of the scans: nothing is claimed for all inputs, but the finite family (R4) was read in
+            # full without a counterexample, so this is not an alarm either
+            for r_ in ('C16.R1', 'C16.R2'):
+                rep.rules[r_].min_instances = 0
+                rep.undecided(r_, ds.where, 'scan shape', f'not readable ({exc}); the finite family of R4 holds')
+        else:
             raise
-        rep.note(f'shape rules not applicable to this danger_space ({exc}); the statement is refuted by the counterexample')
 
 
 def _shape_rules(prog: Program, rep, td, ds) -> None:
@@ -100,15 +108,14 @@ def _shape_rules(prog: Program, rep, td, ds) -> None:
                    for n in ast.walk(f.node))
     scans = {n: f for n, f in ds.nested.items() if _loops_over_rows(f)}
     helpers = {n: f for n, f in ds.nested.items() if n not in scans}
-    if len(scans) != 2:
-        raise AnalysisError(f'danger_space: expected two nested scan functions over the rows, found {sorted(scans)} '
-                            f'(helpers {sorted(helpers)})')
+    scans_readable = len(scans) == 2
     ev = Evaluator(prog, hooks=C.pref_hooks(prog), opaque={'index_at_distance'})
     hr = prog.cls(C.M_TD, 'HitResult')
 
     # ---- prefix: half height -----------------------------------------------------------------
-    first_def = min(f.node.lineno for f in scans.values())
-    last_def = max(f.node.lineno for f in scans.values())
+    defs_ = [f.node.lineno for f in (scans or ds.nested).values()] or [max(s_.lineno for s_ in ds.node.body)]
+    first_def = min(defs_)
+    last_def = max(defs_)
     prefix = [s for s in ds.node.body if (s.lineno < first_def and not isinstance(s, ast.FunctionDef))
               or (isinstance(s, ast.FunctionDef) and s.name in helpers and s.lineno < last_def)]
     st = State()
@@ -141,6 +148,9 @@ def _shape_rules(prog: Program, rep, td, ds) -> None:
             rep.fail('C16.R3', td.path, ds.node.lineno, ds.qualname, 'sentinel',
                      'the sentinel check does not raise for index -1 (Python would silently use the last row)'
                      if not ok_m1 else 'the sentinel check also rejects valid indices')
+    if not scans_readable:
+        raise AnalysisError(f'danger_space: expected two nested scan functions looping over the rows, found {sorted(scans)} '
+                            f'(other nested functions {sorted(helpers)})')
     half = None
     half_name = None
     for _p, leaf in leaves(tree):
@@ -166,18 +176,9 @@ def _shape_rules(prog: Program, rep, td, ds) -> None:
         if len(loops) != 1:
             raise AnalysisError(f'{name}: expected one for loop')
         loop = loops[0]
-        ifs = [s for s in loop.body if isinstance(s, ast.If)]
-        if len(ifs) != 1 or not any(isinstance(x, ast.Return) for x in ifs[0].body):
-            raise AnalysisError(f'{name}: loop body is not `if <pred>: return row`')
-        test = ifs[0].test
-        ret_in = next(x for x in ifs[0].body if isinstance(x, ast.Return))
-        row_var = loop.target.id if isinstance(loop.target, ast.Name) else None
-        if row_var is None or norm(ret_in.value) != row_var:
-            rep.fail('C16.R2', td.path, ret_in.lineno, f.qualname, f'{name}:returns',
-                     f'{name} returns `{norm(ret_in.value)}` instead of the row that met the bound')
-        # evaluate the predicate: centre row c = self.trajectory[row_num], scanned row p, half height h.  The
-        # statements before the loop run first (with the enclosing function's locals), so a centre taken through a
-        # helper or kept as a number is read through.
+        # The loop body is evaluated once on a symbolic scanned row p (centre row c = self.trajectory[row_num], half
+        # height h): the paths on which it returns are the bound predicate, and what it returns there must be p itself.
+        # The loop may run over the rows or over their indices; locals set in the body are read through.
         st = State()
         st.heap.update(closure_heap)
         rownum = f.positional[0]
@@ -186,39 +187,75 @@ def _shape_rules(prog: Program, rep, td, ds) -> None:
         st.env[ds.positional[0]] = SymObj('self', hr)
         st.env['__centre__'] = _row(ev, st, prog, 'c')
         st.env[half_name] = S('h')
+        tgt = loop.target.id if isinstance(loop.target, ast.Name) else None
+        if tgt is None:
+            raise AnalysisError(f'{name}: structured loop target')
+        over_indices = isinstance(loop.iter, ast.Call) and (dotted(loop.iter.func) or '') == 'range'
+        traj = f'{ds.positional[0]}.trajectory'
 
         class _Centre(ast.NodeTransformer):
             def visit_Subscript(self_, node):
-                if norm(node.value) == f'{ds.positional[0]}.trajectory' and norm(node.slice) == rownum:
+                if norm(node.value) == traj and norm(node.slice) == rownum:
                     return ast.copy_location(ast.Name(id='__centre__', ctx=ast.Load()), node)
+                if over_indices and norm(node.value) == traj and norm(node.slice) == tgt:
+                    return ast.copy_location(ast.Name(id='__p__', ctx=ast.Load()), node)
                 return self_.generic_visit(node)
         import copy
         pre_loop = [_Centre().visit(copy.deepcopy(s_)) for s_ in f.node.body
                     if s_.lineno < loop.lineno and not (isinstance(s_, ast.Expr) and isinstance(s_.value, ast.Constant))]
-        for s_ in pre_loop:
+        body2 = [_Centre().visit(copy.deepcopy(s_)) for s_ in loop.body]
+        for s_ in pre_loop + body2:
             ast.fix_missing_locations(s_)
-        test2 = ast.fix_missing_locations(_Centre().visit(copy.deepcopy(test)))
         try:
             t_pre = ev.exec_block(pre_loop, st, Ctx(td, f, None, 0))
             if not isinstance(t_pre, Leaf) or t_pre.kind != 'fall':
                 raise Undecided('branching before the scan loop')
             st = t_pre.state
-            st.env[row_var] = _row(ev, st, prog, 'p')
-            pv = ev.eval(test2, st, Ctx(td, f, None, 0))
+            prow = _row(ev, st, prog, 'p')
+            st.env['__p__'] = prow
+            st.env[tgt] = S('j') if over_indices else prow
+            body_tree = ev.exec_block(body2, st, Ctx(td, f, None, 0))
         except Undecided as exc:
-            raise AnalysisError(f'{name} predicate: {exc}') from exc
+            raise AnalysisError(f'{name} loop body: {exc}') from exc
+        rets = [(pth, lf) for pth, lf in leaves(body_tree) if lf.kind == 'return']
+        if not rets:
+            raise AnalysisError(f'{name}: the loop body never returns')
+        wrong_val = [lf for _pth, lf in rets if not (isinstance(lf.value, Inst) and lf.value.oid == prow.oid)]
+        first_if = next((s_ for s_ in loop.body if isinstance(s_, ast.If)), loop)
+        if wrong_val:
+            rep.fail('C16.R2', td.path, first_if.lineno, f.qualname, f'{name}:returns',
+                     f'{name} returns {wrong_val[0].value!r} instead of the row that met the bound')
+
+        class _IfsShim:          # the messages below name the test and its line
+            pass
+        ifs = [first_if]
+        test = first_if.test if isinstance(first_if, ast.If) else loop.iter
+
+        def _truth(env_):
+            kinds = {lf.kind for lf in reachable_leaves(body_tree, env_)}
+            if kinds == {'return'}:
+                return True
+            if 'return' not in kinds and 'raise' not in kinds:
+                return False
+            return None
+
+        class _PV:               # what truth_at needs: a callable view of the body tree
+            pass
+        pv = None
+        used = set()
+        for pth, _lf in leaves(body_tree):
+            for t, _pol in pth:
+                if t.rf is not None:
+                    used |= t.rf.symbols()
+                elif t.kind == 'opaque':
+                    used.add(t.key)
         # classification over the orderings of delta = p - c against +-h (h > 0)
         samples = {'above (delta = +2h)': {'p': 3.0, 'c': 1.0, 'h': 1.0}, 'at +h': {'p': 2.0, 'c': 1.0, 'h': 1.0},
                    'inside (delta = 0.5h)': {'p': 1.5, 'c': 1.0, 'h': 1.0}, 'inside (delta = -0.5h)': {'p': 0.5, 'c': 1.0, 'h': 1.0},
                    'at -h': {'p': 0.0, 'c': 1.0, 'h': 1.0}, 'below (delta = -2h)': {'p': -1.0, 'c': 1.0, 'h': 1.0}}
         want = {'above (delta = +2h)': True, 'at +h': True, 'inside (delta = 0.5h)': False, 'inside (delta = -0.5h)': False,
                 'at -h': True, 'below (delta = -2h)': True}
-        got = {k: truth_at(ev, pv, e) for k, e in samples.items()}
-        used = set()
-        for _pp, _l in cond_leaves(pv):
-            for t, _pol in _pp:
-                if t.rf is not None:
-                    used |= t.rf.symbols()
+        got = {k: _truth(e) for k, e in samples.items()}
         if None in got.values() or not used <= {'p', 'c', 'h'}:
             extra = sorted(used - {'p', 'c', 'h'})
             rep.fail('C16.R2', td.path, ifs[0].lineno, f.qualname, f'{name}:scale',
@@ -258,6 +295,24 @@ def _shape_rules(prog: Program, rep, td, ds) -> None:
                 kind = 'begin'
             elif not rev and hi is None and isinstance(lo, A.RF) and (lo.equals(k + 1) or lo.equals(k)):
                 kind = 'end'
+        elif over_indices and not loop.iter.keywords and 2 <= len(loop.iter.args) <= 3:
+            # for i in range(k + 1, len(self.trajectory))   /   for i in range(k - 1, -1, -1)
+            k = A.sym('k')
+            nrows = A.sym('len(self.trajectory)')
+            try:
+                vals = [ev.eval(a_, State({rownum: S('k'), ds.positional[0]: SymObj('self', hr)}), Ctx(td, f, None, 0))
+                        for a_ in loop.iter.args]
+            except Undecided as exc:
+                raise AnalysisError(f'{name}: range bounds: {exc}') from exc
+            if all(isinstance(v_, Scalar) for v_ in vals):
+                lo, hi = vals[0].rf, vals[1].rf
+                step = vals[2].rf if len(vals) == 3 else A.rf(1)
+                if step.equals(A.rf(1)) and (lo.equals(k + 1) or lo.equals(k)) and hi.equals(nrows):
+                    kind = 'end'
+                elif step.equals(A.rf(-1)) and (lo.equals(k - 1) or lo.equals(k)) and hi.equals(A.rf(-1)):
+                    kind = 'begin'
+        else:
+            raise AnalysisError(f'{name}: the scan iterates `{norm(it)[:60]}`: not a slice of the rows or a range of their indices')
         if kind is None:
             rep.fail('C16.R2', td.path, loop.lineno, f.qualname, f'{name}:slice',
                      f'{name} scans `{norm(it)[:70]}`: neither the rows before the target row walked backwards nor the '
@@ -382,8 +437,10 @@ VARIANTS = [
     Variant('at-range-off-by-one', 'break', [(TDF, 'return DangerSpace(self.trajectory[index],', 'return DangerSpace(self.trajectory[index - 1],')], 'C16.R2'),
     Variant('twin-drop-helper', 'twin', [(TDF, '        def find_begin_danger(row_num: int) -> TrajectoryData:', '        def drop_of(row: TrajectoryData) -> float:\n            return row.target_drop.raw_value\n\n        def find_begin_danger(row_num: int) -> TrajectoryData:'), (TDF, '            center_row = self.trajectory[row_num]\n            for prime_row in reversed(self.trajectory[:row_num]):\n                if abs(prime_row.target_drop.raw_value - center_row.target_drop.raw_value) >= target_height_half:', '            center_drop = drop_of(self.trajectory[row_num])\n            for prime_row in reversed(self.trajectory[:row_num]):\n                if abs(drop_of(prime_row) - center_drop) >= target_height_half:')], None, 'the centre taken through a nested helper and kept as a number'),
     Variant('drops-in-preferred-drop-unit', 'break', [(TDF, '        def find_begin_danger(row_num: int) -> TrajectoryData:', '        def drop_of(row: TrajectoryData) -> float:\n            return row.target_drop >> PreferredUnits.drop\n\n        def find_begin_danger(row_num: int) -> TrajectoryData:'), (TDF, '            center_row = self.trajectory[row_num]\n            for prime_row in reversed(self.trajectory[:row_num]):\n                if abs(prime_row.target_drop.raw_value - center_row.target_drop.raw_value) >= target_height_half:', '            center_drop = drop_of(self.trajectory[row_num])\n            for prime_row in reversed(self.trajectory[:row_num]):\n                if abs(drop_of(prime_row) - center_drop) >= target_height_half:')], 'C16.R2', 'seeded change C16/4 in part: drops in the preferred drop unit against a raw half height'),
-    Variant('centre-from-look-angle', 'break', [(TDF, '            center_row = self.trajectory[row_num]\n            for prime_row in self.trajectory[row_num + 1:]:\n                if abs(center_row.target_drop.raw_value - prime_row.target_drop.raw_value) >= target_height_half:', '            center_row = self.trajectory[row_num]\n            for prime_row in self.trajectory[row_num + 1:]:\n                if abs(center_row.target_drop.raw_value - (prime_row.height.raw_value - prime_row.distance.raw_value * math.tan(_look_angle.raw_value))) >= target_height_half:')], 'C16.R2', 'seeded change C16/6 in part: the scanned row\'s drop recomputed from the look_angle argument'),
+    Variant('centre-from-look-angle', 'break', [(TDF, '            center_row = self.trajectory[row_num]\n            for prime_row in self.trajectory[row_num + 1:]:\n                if abs(center_row.target_drop.raw_value - prime_row.target_drop.raw_value) >= target_height_half:', '            center_row = self.trajectory[row_num]\n            for prime_row in self.trajectory[row_num + 1:]:\n                if abs(center_row.target_drop.raw_value - (prime_row.height.raw_value - prime_row.distance.raw_value * math.tan(_look_angle.raw_value))) >= target_height_half:'), (TDF, 'from dataclasses import dataclass, field\n', 'import math\nfrom dataclasses import dataclass, field\n')], 'C16.R2', 'seeded change C16/6 in part: the scanned row\'s drop recomputed from the look_angle argument'),
     Variant('whole-trajectory-band', 'break', [(TDF, '        return DangerSpace(self.trajectory[index],\n                           target_height,\n                           find_begin_danger(index),\n                           find_end_danger(index),', '        c_ = self.trajectory[index].target_drop.raw_value\n        hits = [i for i, row in enumerate(self.trajectory) if abs(row.target_drop.raw_value - c_) < target_height_half] or [index]\n        return DangerSpace(self.trajectory[index],\n                           target_height,\n                           self.trajectory[max(hits[0] - 1, 0)],\n                           self.trajectory[min(hits[-1] + 1, len(self.trajectory) - 1)],')], 'C16.R4', 'seeded change C16/2 in spirit: first / last in-band row over the whole trajectory'),
+    Variant('twin-end-scan-over-indices', 'twin', [(TDF, '            center_row = self.trajectory[row_num]\n            for prime_row in self.trajectory[row_num + 1:]:\n                if abs(center_row', '            center_row = self.trajectory[row_num]\n            for i in range(row_num + 1, len(self.trajectory)):\n                prime_row = self.trajectory[i]\n                if abs(center_row')], None),
+    Variant('twin-begin-scan-next-generator', 'twin', [(TDF, '            center_row = self.trajectory[row_num]\n            for prime_row in reversed(self.trajectory[:row_num]):\n                if abs(prime_row.target_drop.raw_value - center_row.target_drop.raw_value) >= target_height_half:\n                    return prime_row\n            return self.trajectory[0]\n', '            center = self.trajectory[row_num].target_drop.raw_value\n            return next((prime_row for prime_row in reversed(self.trajectory[:row_num])\n                         if abs(prime_row.target_drop.raw_value - center) >= target_height_half), self.trajectory[0])\n')], None, 'shape not readable by the scan rules; the finite family holds: undecided, exit 0'),
     Variant('twin-explicit-or', 'twin', [(TDF, 'if abs(center_row.target_drop.raw_value - prime_row.target_drop.raw_value) >= target_height_half:', 'if (center_row.target_drop.raw_value - prime_row.target_drop.raw_value) >= target_height_half or (prime_row.target_drop.raw_value - center_row.target_drop.raw_value) >= target_height_half:')], None),
     Variant('twin-guard-eq-minus-one', 'twin', [(TDF, '        if (index := self.index_at_distance(at_range)) < 0:', '        if (index := self.index_at_distance(at_range)) == -1:')], None),
     Variant('twin-guard-le-minus-one', 'twin', [(TDF, '        if (index := self.index_at_distance(at_range)) < 0:', '        if (index := self.index_at_distance(at_range)) <= -1:')], None),
